@@ -38,34 +38,47 @@ def main():
             res["confirm"] = json.load(open(rp)).get("confirm", {})
         except Exception:
             pass
-    if os.path.isdir(os.path.join(wt, "_seed")):
+    if os.path.isdir(os.path.join(wt, "_seed")) and not os.path.exists(os.path.join(out, "patch.diff")):
         for f in ("patch.diff", "demo.py", "meta.json"):
             shutil.copy(os.path.join(wt, "_seed", f), os.path.join(out, f))
-        env = {"PYTHONPATH": wt, "PYTHONHASHSEED": "0", "PYTHONDONTWRITEBYTECODE": "1"}
-        # state of the worktree: change applied
-        rc_with, o_with = sh(f"{PY} _seed/demo.py", cwd=wt, env=env, timeout=600)
-        rc_t, o_t = sh(f"{PY} -m pytest -q -p no:cacheprovider -x 2>&1 | tail -3", cwd=wt, env=env, timeout=1800)
-        sh("git stash -q -- valida", cwd=wt)
-        rc_without, o_without = sh(f"{PY} _seed/demo.py", cwd=wt, env=env, timeout=600)
-        sh("git stash pop -q", cwd=wt)
-        res["confirm"] = {"demo_with_change_exit": rc_with, "demo_with_change_tail": o_with[-600:],
-                          "demo_without_change_exit": rc_without, "tests_with_change": o_t.strip().splitlines()[-1] if o_t.strip() else "",
-                          "ok": rc_with != 0 and rc_without == 0 and " passed" in o_t and "failed" not in o_t}
-        print("confirm:", json.dumps({k: v for k, v in res["confirm"].items() if k != "demo_with_change_tail"}))
     patch = os.path.join(out, "patch.diff")
     iso = "--isolated" in a
+    # a scratch worktree of /repo's HEAD of our own (never the seed author's: `git stash` is shared between worktrees)
+    R2 = f"/tmp/vs/{sid}_repo"
+    os.makedirs("/tmp/vs", exist_ok=True)
+    sh(f"git worktree remove --force {R2}", cwd="/repo")
+    shutil.rmtree(R2, ignore_errors=True)
+    rc, o = sh(f"git worktree add --detach {R2} HEAD", cwd="/repo")
+    if rc != 0:
+        print("cannot create worktree:", o)
+        sys.exit(2)
+    os.makedirs(os.path.join(R2, "_seed"))
+    shutil.copy(os.path.join(out, "demo.py"), os.path.join(R2, "_seed", "demo.py"))
+    env = {"PYTHONPATH": R2, "PYTHONHASHSEED": "0", "PYTHONDONTWRITEBYTECODE": "1"}
+    rc_without, o_without = sh(f"{PY} _seed/demo.py", cwd=R2, env=env, timeout=600)
+    rc, o = sh(f"git apply {patch}", cwd=R2)
+    if rc != 0:
+        print("patch does not apply to HEAD:", o)
+        sh(f"git worktree remove --force {R2}", cwd="/repo")
+        sys.exit(2)
+    rc_with, o_with = sh(f"{PY} _seed/demo.py", cwd=R2, env=env, timeout=600)
+    rc_t, o_t = sh(f"{PY} -m pytest -q -p no:cacheprovider -x 2>&1 | tail -3", cwd=R2, env=env, timeout=1800)
+    res["confirm"] = {"demo_with_change_exit": rc_with, "demo_with_change_tail": o_with[-600:],
+                      "demo_without_change_exit": rc_without, "tests_with_change": o_t.strip().splitlines()[-1] if o_t.strip() else "",
+                      "ok": rc_with != 0 and rc_without == 0 and " passed" in o_t and "failed" not in o_t}
+    print("confirm:", json.dumps({k: v for k, v in res["confirm"].items() if k != "demo_with_change_tail"}))
     env = None
     if iso:
         # an isolated copy of /verif run against the scratch worktree (which has the change applied): does not
         # disturb builds going on in /verif.  The literal procedure (apply to /repo) is the default mode.
         V2 = f"/tmp/vs/{sid}"
         shutil.rmtree(V2, ignore_errors=True)
-        os.makedirs("/tmp/vs", exist_ok=True)
-        sh(f"rsync -a --exclude .git --exclude _build/cases --exclude seeded --exclude 'Proofs/C10Proof.*' --exclude 'Proofs/C12Proof.*' --exclude 'Proofs/C13Proof.*' /verif/ {V2}/")
-        env = {"VALIDA_REPO": wt}
-        res["mode"] = "isolated copy of /verif against the scratch worktree"
+        sh(f"rsync -a --exclude .git --exclude _build/cases --exclude seeded /verif/ {V2}/")
+        env = {"VALIDA_REPO": R2}
+        res["mode"] = "isolated copy of /verif against a scratch worktree of /repo's HEAD with the patch applied"
         Vrun = V2
     else:
+        sh(f"git worktree remove --force {R2}", cwd="/repo")
         res["mode"] = "patch applied to /repo"
         Vrun = V
         rc, o = sh("git status --porcelain", cwd="/repo")
@@ -97,6 +110,7 @@ def main():
     finally:
         if iso:
             shutil.rmtree(Vrun, ignore_errors=True)
+            sh(f"git worktree remove --force {R2}", cwd="/repo")
         else:
             sh("git checkout -- .", cwd="/repo")
             sh("git checkout -- evidence", cwd=V)
